@@ -3,6 +3,7 @@ package c01
 
 import (
 	"bytes"
+	"compress/gzip"
 	"context"
 	"encoding/json"
 	"fmt"
@@ -30,7 +31,7 @@ type PktSpec struct {
 	Compress bool   `json:"compress"` // useCompression argument of WritePacket
 	Cmd      *Cmd   `json:"cmd,omitempty"`
 	BodyLen  int    `json:"body_len"`
-	BodyMode int    `json:"body_mode"` // 0 pseudo-random(seed), 1 repeating pattern(seed), 2 explicit
+	BodyMode int    `json:"body_mode"` // 0 pseudo-random(seed), 1 repeating pattern(seed), 2 explicit, 3 gzip stream of mode 0, 4 the same cut short
 	BodySeed uint64 `json:"body_seed"`
 	Explicit []byte `json:"explicit,omitempty"`
 	Rate     int64  `json:"rate,omitempty"` // rateLimitBytesPerSecond argument of WritePacket (0 = unlimited)
@@ -61,6 +62,21 @@ func (p PktSpec) body() []byte {
 	switch p.BodyMode {
 	case 2:
 		return p.Explicit
+	case 3, 4:
+		// a body that is itself a complete gzip stream (a .gz file, a pre-compressed HTTP response) of
+		// BodyLen pseudo-random bytes; mode 4: the same with its trailer cut (not a valid stream). Written
+		// with or without the framing layer's own compression it must come back byte for byte.
+		q := p
+		q.BodyMode = 0
+		var buf bytes.Buffer
+		zw := gzip.NewWriter(&buf)
+		zw.Write(q.body())
+		zw.Close()
+		b := buf.Bytes()
+		if p.BodyMode == 4 && len(b) > 3 {
+			b = b[:len(b)-3]
+		}
+		return b
 	case 1:
 		b := make([]byte, p.BodyLen)
 		pat := []byte(fmt.Sprintf("tunnox-%d-", p.BodySeed%97))
@@ -165,7 +181,7 @@ func genPkt(t *rapid.T, maxBody int) PktSpec {
 		p.Explicit = rapid.SliceOfN(rapid.Byte(), p.BodyLen, p.BodyLen).Draw(t, "bytes")
 		return p
 	}
-	p.BodyMode = rapid.IntRange(0, 1).Draw(t, "mode")
+	p.BodyMode = rapid.SampledFrom([]int{0, 0, 0, 1, 1, 1, 3, 4}).Draw(t, "mode")
 	p.BodySeed = rapid.Uint64().Draw(t, "bseed")
 	return p
 }
@@ -539,11 +555,16 @@ func TestReplay(t *testing.T) {
 		TPCase
 		WSMCase
 		DuplexCase
+		SlowCase
 	}
 	if _, err := vkit.LoadReplay(path, &u); err != nil {
 		t.Fatalf("bad replay file: %v", err)
 	}
 	switch {
+	case u.SlowCase.Slow != "":
+		if f, _ := runSlow(t, u.SlowCase); f != nil {
+			vkit.Violation(t, f.key, f.detail, u.SlowCase)
+		}
 	case len(u.Writers) > 0:
 		for i := 0; i < 50; i++ { // schedule-dependent
 			if f := runConc(u.ConcCase); f != nil {
